@@ -178,16 +178,30 @@ fn fidelity(tier: Tier, shard: Shard, stats: &mut Stats) {
         }
         // route 0: with_template on a default bar; route 1 (templates with a tab): the template is put
         // on the style of a live bar with tab width 4 through bar.style().template(..) + set_style
-        let routes: &[usize] = if tpl.contains('\t') { &[0, 1] } else { &[0] };
+        // route 2 (templates with a wide element): the terminal shrinks to 120 columns between two draws
+        // of one bar; route 3 (templates with an unknown key): the bar had a style that registered a
+        // custom key of that name before this style was installed
+        let mut routes_v: Vec<usize> = vec![0];
+        if tpl.contains('\t') {
+            routes_v.push(1);
+        }
+        if tpl.contains("{wide_") {
+            routes_v.push(2);
+        }
+        if tpl.contains("{zz") {
+            routes_v.push(3);
+        }
+        let routes: &[usize] = &routes_v;
         let mut got_all = Vec::new();
         for &route in routes {
-            let tabw = if route == 0 { 8 } else { 4 };
+            let tabw = if route == 1 { 4 } else { 8 };
+            let tw = if route == 2 { 120usize } else { 200 };
             let expect: Vec<String> = lines
                 .iter()
                 .map(|l| {
                     let l = l.replace('\t', &" ".repeat(tabw));
                     let rest = l.chars().filter(|c| *c != '\u{1}' && *c != '\u{2}').count();
-                    let room = 200usize.saturating_sub(rest);
+                    let room = tw.saturating_sub(rest);
                     l.replace('\u{1}', &"░".repeat(room)).replace('\u{2}', &if room == 0 { String::new() } else { format!("M{}", " ".repeat(room - 1)) })
                 })
                 .collect();
@@ -200,6 +214,17 @@ fn fidelity(tier: Tier, shard: Shard, stats: &mut Stats) {
             let got = match catch(|| {
                 let pb = if route == 0 {
                     bar_on(&catcher, Some(5), style).with_message("M")
+                } else if route == 2 {
+                    let pb = bar_on(&catcher, Some(5), style).with_message("M");
+                    pb.tick();
+                    catcher.resize(120);
+                    pb
+                } else if route == 3 {
+                    let old = ProgressStyle::with_template("{zz}").unwrap().with_key("zz", |_: &ProgressState, w: &mut dyn Write| write!(w, "OLD").unwrap());
+                    let pb = bar_on(&catcher, Some(5), old).with_message("M");
+                    pb.tick();
+                    pb.set_style(style);
+                    pb
                 } else {
                     let pb = bar_on(&catcher, Some(5), ProgressStyle::with_template("{msg}").unwrap().with_key("k", |_: &ProgressState, w: &mut dyn Write| write!(w, "VAL").unwrap())).with_message("M").with_tab_width(4);
                     pb.tick();
@@ -211,8 +236,12 @@ fn fidelity(tier: Tier, shard: Shard, stats: &mut Stats) {
                 g
             }) {
                 Ok(g) => g,
-                Err(p) => return Err(mk(format!("fidelity panic in draw: {}", panic_class(&p)), p)),
+                Err(p) => {
+                    catcher.resize(200);
+                    return Err(mk(format!("fidelity panic in draw: {}", panic_class(&p)), p));
+                }
             };
+            catcher.resize(200);
             catcher.take();
             // a line that ends with {wide_msg} ends in padding: the terminal layer may write those
             // blanks as its own right-edge filler, so trailing blanks of such a line are not compared
@@ -225,7 +254,11 @@ fn fidelity(tier: Tier, shard: Shard, stats: &mut Stats) {
                 alt.pop();
             }
             if got != expect && got != alt {
-                let class = if route == 1 {
+                let class = if route == 2 {
+                    "fidelity: rendering does not follow the terminal width after a resize between two draws"
+                } else if route == 3 {
+                    "fidelity: an unknown key expands to the output of a custom key registered by an earlier style of the bar"
+                } else if route == 1 {
                     "fidelity: rendering differs from the derivation when the template is installed on a live bar with tab width 4"
                 } else if idx.iter().any(|&i| segs[i].text.starts_with("{ ") || segs[i].text.starts_with("{\t") || segs[i].text.starts_with("{\n")) {
                     "fidelity: rendering differs from the derivation (template contains '{'+whitespace)"
